@@ -511,6 +511,10 @@ def main(argv=None):
             for k, v in sorted(ps["classes"].items()):
                 if k.startswith("FAIL"):
                     print(f"  SURVEY {name} x{v}: {k}")
+    if os.environ.get("VERIF_CLASSES"):
+        for name, ps in sorted(per_sub.items()):
+            for k, v in sorted(ps["classes"].items(), key=lambda kv: -kv[1]):
+                print(f"  CLASS {name} x{v}: {k}")
     print(f"{pid} tier={tier} seed={seed} evaluations={evaluations} distinct_nontrivial={distinct} wall={wall:.1f}s")
     if harness_errors:
         for h in harness_errors:
